@@ -20,6 +20,12 @@ CHECKS = {
             "Every tool/library output for each (tool, options, input) triple is recorded under 3 (quick) / 6 (thorough) hash seeds plus an in-process repetition and compared byte for byte; the witness is the first differing line."),
     "C16": ("contract on all_dot_brackets + Grundy-colouring enumerator as reference model", "4.C16",
             "Set equality between the library's list and an independent enumeration of greedy-stable assignments, exhaustive over pairings up to N plus random multi-component knots."),
+    "C18": ("contracts on both torsion functions judging every call against an independent dihedral + constructive builder", "4.C18",
+            "Every call of either torsion implementation made by any workload (builder quadruples under rigid motions, reversal, mirroring; corpus chi/backbone torsions via Residue3D.chi, the annotator and Structure.torsion_angles) is compared with an IUPAC reference validated against a constructive builder in the same run."),
+    "C19": ("contracts on the FR3D/DSSR importers + regular-expression reference of the label language", "4.C19",
+            "Label space exhaustive to length 4 (quick) / 6 over a reduced alphabet (thorough); generated listings and DSSR documents judged against a unit-id grammar and resolvable-name oracle."),
+    "C20": ("contracts on copy_from_to/replace_value + in-process CLI twin, frames compared by an independent CIF tokenizer", "4.C20",
+            "Input and output documents are parsed by an independent tokenizer and compared cell by cell; the CLI is run in-process on the same content and compared byte for byte with the library result."),
 }
 
 LEVEL_NOTE = {
@@ -30,6 +36,9 @@ LEVEL_NOTE = {
     "C13": "HiGHS configuration is an interface-compatible stub delegating to CBC; faults injected at actualSolve/status",
     "C14": "hash seeds sampled, not enumerated; third-party libraries assumed deterministic given the seed",
     "C16": "components up to 8 stems (enumeration is factorial inside the library)",
+    "C18": "reference dihedral formula validated by construction; tolerance 1e-9; degenerate geometry (sine product < 1e-3) skipped",
+    "C19": "label/unit-id grammar is the specification side; decorated non-LW labels and liberal-int numbers undecided",
+    "C20": "category order in the file is not demanded (the third-party writer moves atom_site last); alphabet overflow outside the statement",
 }
 
 
